@@ -28,24 +28,68 @@ theorem processPayload_in_order (t : Tracker) (d : Bytes) (hb : t.buf = []) (hc 
 
 
 /-- KF-C07-3 (fixed): the payload of an initial SYN segment (TCP Fast Open) is delivered whole by the stream the SYN creates,
-    and the client direction then expects the byte after it, with nothing buffered. -/
-theorem syn_payload_delivered (acl : Bool) (p : Pkt) (d : Bytes)
+    and the client direction then expects the byte after it, with nothing buffered (unless the application asked to
+    ignore the client's data). -/
+theorem syn_payload_delivered (cfg : Cfg) (p : Pkt) (d : Bytes) (hi : cfg.ignC = false)
     (hs : p.syn = true) (hr : p.rst = false) (hf : p.fin = false) (hp : p.payload = some d)
     (h0 : 0 < d.length) (hn : d.length < 2147483648) :
-    (Stream.route { (Stream.ofPacket p acl) with lastSeen := p.ts } p).2 = [SEv.data true d] ∧
-    (Stream.route { (Stream.ofPacket p acl) with lastSeen := p.ts } p).1.client.tr.seq = wrap32 (wrap32 (p.seq + 1) + d.length) ∧
-    (Stream.route { (Stream.ofPacket p acl) with lastSeen := p.ts } p).1.client.tr.buf = [] := by
+    (Stream.route { (Stream.ofPacket cfg p) with lastSeen := p.ts } p).2 = [SEv.data true d] ∧
+    (Stream.route { (Stream.ofPacket cfg p) with lastSeen := p.ts } p).1.client.tr.seq = wrap32 (wrap32 (p.seq + 1) + d.length) ∧
+    (Stream.route { (Stream.ofPacket cfg p) with lastSeen := p.ts } p).1.client.tr.buf = [] := by
   have hds : p.dataSeq = wrap32 (p.seq + 1) := by unfold Pkt.dataSeq; simp [hs]
   have hlt : wrap32 (p.seq + 1) < 4294967296 := by unfold wrap32; omega
   obtain ⟨i1, i2, i3, i4⟩ := processPayload_in_order
     { seq := wrap32 (p.seq + 1), buf := [], total := 0, payload := [] } d rfl hlt h0 hn
   have a1 := seqCompare_ahead (wrap32 (p.seq + 1)) d.length hlt h0 hn
   simp only at i1 i2 i3 i4
-  unfold Stream.route Stream.ofPacket
-  simp only [Flow.packetBelongs, Flow.init, beq_self_eq_true, Bool.and_self, if_true]
-  simp only [Flow.processPacket, Flow.updateState, hr, hf, hs, hp, hds, Tracker.init, Bool.false_eq_true, if_false, if_true,
-    and_true, reduceCtorEq, false_and, a1, seqCompare_self]
+  have hcl : ((Stream.ofPacket cfg p).client.pre p).ignoreData = false ∧
+      ((Stream.ofPacket cfg p).client.pre p).tr = Tracker.init (wrap32 (p.seq + 1)) := by
+    obtain ⟨_, _, _, _, q5, q6, _⟩ := pre_fields (Stream.ofPacket cfg p).client p
+    refine ⟨q6.trans hi, ?_⟩
+    rw [q5, updateState_tr_syn _ p rfl hs hr hf]
+    show ({ (Tracker.init p.dataSeq) with seq := wrap32 (p.seq + 1) } : Tracker) = _
+    rw [hds]; rfl
+  have hb : (Stream.ofPacket cfg p).client.packetBelongs p = true := by
+    simp [Stream.ofPacket, Flow.configure, Flow.init, Flow.packetBelongs]
+  have hno : isOoo p d (Tracker.init (wrap32 (p.seq + 1))).seq = false := by
+    unfold isOoo
+    simp only [hds, Tracker.init, a1, seqCompare_self]
+    decide
+  have hpp := processPacket_some' (Stream.ofPacket cfg p).client p d hcl.1 hp
+  rw [hcl.2, hno, afterOoo_false, hcl.2] at hpp
+  unfold Stream.route
+  simp only [hb, if_true, hpp, hds, Tracker.init, a1, seqCompare_self]
   simp [i1, i2, i3, i4, clearPayload]
-  cases acl <;> simp [i3, i4]
+  cases h : (Stream.ofPacket cfg p).acl <;> simp [i3, i4]
+
+/-- recovery mode: an out-of-order segment that lies ahead of the expected sequence number, inside the recovery window, on a
+    flow with nothing buffered: the handler advances the sequence number to the segment (skipping the hole) and the segment
+    is delivered at once; the handler stays installed while the window's end lies beyond the segment -/
+theorem recovery_skips_hole (f : Flow) (p : Pkt) (d : Bytes) (e : Nat)
+    (hi : (f.pre p).ignoreData = false) (hp : p.payload = some d) (hr : (f.pre p).recEnd = some e)
+    (hb : (f.pre p).tr.buf = []) (hahead : seqCompare p.dataSeq (f.pre p).tr.seq > 0)
+    (hwin : p.dataSeq > (f.pre p).tr.seq ∧ p.dataSeq ≤ e) (h0 : 0 < d.length) (hn : d.length < 2147483648) :
+    (f.processPacket p).2.1 = some (p.dataSeq, d) ∧ (f.processPacket p).2.2 = true ∧
+    (f.processPacket p).1.tr.payload = (f.pre p).tr.payload ++ d ∧
+    (f.processPacket p).1.tr.seq = wrap32 (p.dataSeq + d.length) ∧ (f.processPacket p).1.tr.buf = [] ∧
+    (f.processPacket p).1.recEnd = (if e > p.dataSeq then some e else none) := by
+  have hoo : isOoo p d (f.pre p).tr.seq = true := by unfold isOoo; simp [hahead]
+  have hlt : p.dataSeq < 4294967296 := by unfold Pkt.dataSeq wrap32; omega
+  have hadv : advanceSequence (f.pre p).tr p.dataSeq =
+      { seq := p.dataSeq, buf := [], total := (f.pre p).tr.total, payload := (f.pre p).tr.payload } := by
+    unfold advanceSequence
+    have : ¬ seqCompare p.dataSeq (f.pre p).tr.seq ≤ 0 := by omega
+    simp [this, hb]
+  obtain ⟨i1, i2, i3, i4⟩ := processPayload_in_order
+    { seq := p.dataSeq, buf := [], total := (f.pre p).tr.total, payload := (f.pre p).tr.payload } d rfl hlt h0 hn
+  rw [processPacket_some' f p d hi hp, hoo]
+  have haf : (f.pre p).afterOoo p true = (f.pre p).recover p.dataSeq e := by
+    unfold Flow.afterOoo; rw [hr]
+  rw [haf]
+  unfold Flow.recover
+  simp only [hwin, and_self, if_true, hadv]
+  refine ⟨?_, i1, i2, i3, i4, trivial⟩
+  have : seqCompare p.dataSeq (f.pre p).tr.seq > 0 := hahead
+  simp [this]
 
 end Tins.SF
